@@ -16,6 +16,7 @@ Property theorems only (plus the helper lemmas they need). The model (`CD.flags`
 * `C17_views_partial`     the code as it is: true of every run in which no shared graph loses an edge
 * `C17_cex_subdiagram`    the sub-diagram derivation on the shared graph removes edges of its source (test)
 * `C17_accessors`         after any run every diagram's accessors report exactly its own graph
+* `C17_accessors_pure`    `C17_views_pure` for every accessor: no read ever differs from the previous read of that diagram
 -/
 namespace KrroodVerif.CD
 
@@ -536,6 +537,7 @@ theorem step_ext (q : Quirks) (hq : q.shallowCopy = false) (s : Store) (wf : s.W
   cases op with
   | query d k => exact ⟨Store.Ext.refl s, wf⟩
   | access d c k => exact ⟨Store.Ext.refl s, wf⟩
+  | read d => exact ⟨Store.Ext.refl s, wf⟩
   | render d b => exact ⟨Store.Ext.refl s, wf⟩
   | copy d =>
     simp only [stepOp]
@@ -570,6 +572,7 @@ theorem step_ext_untouched (q : Quirks) (s : Store) (wf : s.WF) (op : Op) (hu : 
     cases op with
     | query d k => exact ⟨Store.Ext.refl s, wf⟩
     | access d c k => exact ⟨Store.Ext.refl s, wf⟩
+    | read d => exact ⟨Store.Ext.refl s, wf⟩
     | render d b => exact ⟨Store.Ext.refl s, wf⟩
     | copy d => exact (by
         simp only [stepOp]
@@ -720,6 +723,7 @@ theorem step_allClosed (q : Quirks) (s : Store) (h : s.AllClosed) (op : Op) : (s
   cases op with
   | query d k => exact h
   | access d c k => exact h
+  | read d => exact h
   | render d b => exact h
   | copy d =>
     simp only [stepOp]
@@ -786,5 +790,77 @@ theorem C17_accessors (q : Quirks) (w : World) (order : List Nat) (ops : List Op
 
 /-- `misreported` is not constantly empty: a graph with an edge whose source is not a node is misreported -/
 example : misreported ⟨[⟨[0], [⟨1, 0, .inh⟩]⟩], [0]⟩ ≠ [] := by decide
+
+/-! ## every accessor is a pure function of the diagram -/
+
+theorem graphOf_lt {s : Store} {d : Nat} {g : Graph} (h : s.graphOf d = some g) : d < s.diagrams.length := by
+  unfold Store.graphOf at h
+  cases hd : s.diagrams[d]? with
+  | none => rw [hd] at h; cases h
+  | some gid => exact (List.getElem?_eq_some_iff.mp hd).1
+
+/-- the values remembered by the reader are the values of the accessor on the diagrams as they are now -/
+abbrev MemoOK {α} (acc : Graph → α) (s : Store) (memo : List (Nat × α)) : Prop :=
+  ∀ p ∈ memo, ∃ g, s.graphOf p.1 = some g ∧ p.2 = acc g
+
+theorem memoOK_ext {α} (acc : Graph → α) {s s' : Store} (h : s.Ext s') (wf : s.WF) {memo : List (Nat × α)}
+    (hm : MemoOK acc s memo) : MemoOK acc s' memo := by
+  intro p hp
+  obtain ⟨g, hg, hv⟩ := hm p hp
+  exact ⟨g, by rw [h.graphOf wf p.1 (graphOf_lt hg)]; exact hg, hv⟩
+
+/-- **C17_accessors_pure** (`C17_views_pure` generalised from the graph to everything one can read). With a copied
+graph, for *every* accessor — any function `acc` of a diagram's classes and edges, e.g. `readout`: `parent_map`,
+`all_ancestors`, `get_assoc_keys_by_source`, `get_out_edges` — and for every sequence of operations (reads of any
+diagram, queries, single accessor calls, renderings, copies, derivations, in any order and number): no `read d` ever
+returns a value different from the one the previous `read d` returned, and the value read is the accessor applied to
+the graph the diagram had when it was created. -/
+theorem C17_accessors_pure {α} [DecidableEq α] (acc : Graph → α) (q : Quirks) (hq : q.shallowCopy = false)
+    (ops : List Op) :
+    ∀ (s : Store) (memo : List (Nat × α)), s.WF → MemoOK acc s memo →
+      readTrace acc q s memo ops = ops.map (fun _ => false) ∧
+      ∀ d, d < s.diagrams.length → ((runOps q s ops).graphOf d).map acc = (s.graphOf d).map acc := by
+  induction ops with
+  | nil => intro s memo _ _; exact ⟨rfl, fun _ _ => rfl⟩
+  | cons op ops ih =>
+    intro s memo wf hm
+    obtain ⟨hext, hwf⟩ := step_ext q hq s wf op
+    have hm' := memoOK_ext acc hext wf hm
+    refine ⟨?_, fun d hd => by rw [(C17_views_pure q hq (op :: ops) s wf).1 d hd]⟩
+    cases op with
+    | read d =>
+      simp only [readTrace, List.map_cons]
+      cases hg : (stepOp q s (.read d)).1.graphOf d with
+      | none => simp only []; rw [(ih _ memo hwf hm').1]
+      | some g =>
+        simp only []
+        have hm2 : MemoOK acc (stepOp q s (.read d)).1 ((d, acc g) :: memo) := by
+          intro p hp
+          rcases List.mem_cons.mp hp with rfl | hp
+          · exact ⟨g, hg, rfl⟩
+          · exact hm' p hp
+        rw [(ih _ _ hwf hm2).1]
+        congr 1
+        cases hf : memo.find? (fun p => p.1 == d) with
+        | none => rfl
+        | some p =>
+          simp only []
+          obtain ⟨g', hg', hv⟩ := hm' p (List.mem_of_find?_eq_some hf)
+          have hpd : p.1 = d := by simpa using List.find?_some hf
+          rw [hpd, hg] at hg'
+          cases hg'
+          simp [hv]
+    | query d k => simp only [readTrace, List.map_cons]; rw [(ih _ memo hwf hm').1]
+    | access d c k => simp only [readTrace, List.map_cons]; rw [(ih _ memo hwf hm').1]
+    | render d b => simp only [readTrace, List.map_cons]; rw [(ih _ memo hwf hm').1]
+    | copy d => simp only [readTrace, List.map_cons]; rw [(ih _ memo hwf hm').1]
+    | sub d fl => simp only [readTrace, List.map_cons]; rw [(ih _ memo hwf hm').1]
+
+/-- `readTrace` is not constantly `false`: on the shared graph (the code before fix 8b5fe57) the derivation between two
+reads changes what the source's `parent_map`-family accessors return (test) -/
+example :
+    let w : World := ⟨[⟨0, [], []⟩, ⟨1, [], [⟨⟨false, 0⟩, .cls 0⟩]⟩, ⟨2, [1], []⟩]⟩
+    readTrace readout .today (Store.init (build .today w [0, 1, 2])) [] [.read 0, .sub 0 false, .read 0]
+      = [false, false, true] := by decide
 
 end KrroodVerif.CD
